@@ -127,7 +127,10 @@ class Disposables:
             return_exceptions=True,
         )
 
-        exceptions: list[BaseException] = [exc for exc in results if isinstance(exc, BaseException)]
+        # a disposable re-raising the exception it was handed is not a disposing error, that exception propagates anyway
+        exceptions: list[BaseException] = [
+            exc for exc in results if isinstance(exc, BaseException) and exc is not exc_val
+        ]
 
         if len(exceptions) == 1:
             raise exceptions[0]
